@@ -21,7 +21,18 @@
 (* zone -- a decoder that validates day by day and writes as it goes       *)
 (* shows up as a half-applied schedule.                                    *)
 (*                                                                         *)
-(* TLC explores every (state, document) pair and emits each as a labelled  *)
+(* There are TWO such objects (the global holder of one server and a       *)
+(* second, unrelated holder: another server, a client's settings).  Each   *)
+(* can be updated through the API (Put), be given no schedule at all       *)
+(* (PutNull: "schedule": null means the empty schedule of the default      *)
+(* zone), or be restarted from a configuration document that is decoded,   *)
+(* as YAML or as JSON, ON TOP OF the default configuration whose schedule   *)
+(* is the empty one (Load).  Holders are independent: a request to one     *)
+(* never changes what the other has in effect, and the empty schedule      *)
+(* holds at no instant and has no day when written out -- whatever other   *)
+(* schedules exist or existed.                                             *)
+(*                                                                         *)
+(* TLC explores every (state, request) pair and emits each as a labelled   *)
 (* edge; the orchestrator turns the edges into one edge-covering walk that *)
 (* the Go harness drives through the real HTTP handlers of                 *)
 (* internal/filtering, comparing reply, GET and Contains after EVERY step. *)
@@ -32,10 +43,13 @@ MS == INSTANCE ScheduleCore WITH TPD <- 86400000, TPM <- 60000, SUB <- 1000000, 
 RS == INSTANCE ScheduleCore WITH TPD <- 86400, TPM <- 60, SUB <- 1000000000, WD0 <- 4
 SX == INSTANCE SequencesExt
 
-VARIABLES live,   \* the schedule in effect: [tz |-> zone name, w |-> week in ms]
-          last,   \* history: the last accepted document (or the boot value)
-          out     \* reply to the last request: "boot" | "ok" | "rejected"
-vars == <<live, last, out>>
+Holders == {"g", "c"}          \* the global holder and a second, unrelated one
+OtherH(h) == IF h = "g" THEN "c" ELSE "g"
+
+VARIABLES live,   \* live[h]: the schedule in effect in holder h: [tz |-> zone name, w |-> week in ms]
+          last,   \* history: last[h] = the last document accepted by holder h (or the boot value)
+          op      \* the last request: [h |-> holder, act |-> ..., out |-> "boot" | "ok" | "rejected"]
+vars == <<live, last, op>>
 
 Weekdays == 0 .. 6
 R4(a, b, an, bn) == [s |-> a, e |-> b, sn |-> an, en |-> bn]
@@ -78,9 +92,23 @@ BadDocs == {[tz |-> z, w |-> [x \in Weekdays |-> IF x = p THEN r ELSE Other(k, p
 
 Docs == ValidDocs \cup BadDocs
 
-\* What a freshly started server holds: no range on any day, the server's
-\* own zone.
+\* What a freshly started server holds, and what "schedule": null means: no
+\* range on any day, the server's own zone.
 Boot == [tz |-> "Local", w |-> [x \in Weekdays |-> Absent]]
+Empty == Boot
+
+\* The interplay of the two holders is explored over a smaller universe of
+\* documents; the full universe above is put to holder g while holder c is
+\* still in its boot state.
+SmallWeeks == {[x \in Weekdays |-> IF x % 2 = 0 THEN B ELSE F],
+               [x \in Weekdays |-> IF x % 3 = 0 THEN Absent ELSE IF x % 3 = 1 THEN A ELSE B],
+               [x \in Weekdays |-> IF x = 0 THEN F ELSE Absent]}
+SmallValid == {[tz |-> z, w |-> w] : z \in Zones, w \in SmallWeeks}
+SmallBad   == {[tz |-> "UTC", w |-> [x \in Weekdays |-> IF x = 3 THEN r ELSE Other("valid", 3, x)]] :
+                  r \in {R4(-60000, HourMs, 0, 0), R4(2 * HourMs, HourMs, 0, 0),
+                         R4(23 * HourMs, 25 * HourMs, 0, 0), R4(HourMs, HourMs + 30000, 0, 0)}}
+SmallDocs  == SmallValid \cup SmallBad
+HolderStates == {Boot} \cup ValidDocs
 
 \* ------------------------------------------------------------------- probes
 \* Contains is read at 35 instants of one reference week (2024-01-07, a
@@ -96,30 +124,67 @@ Eff(h) == LET q == SX!SetToSeq(ProbeSecs) IN
 \* ---------------------------------------------------------------- behaviour
 WeekSeq(w) == [i \in 1 .. 7 |-> <<w[i - 1].s, w[i - 1].e, w[i - 1].sn, w[i - 1].en>>]
 DocJ(h) == [tz |-> h.tz, w |-> WeekSeq(h.w)]
+LiveJ(l) == [g |-> DocJ(l["g"]), c |-> DocJ(l["c"])]
 
-Init == live = Boot /\ last = Boot /\ out = "boot"
+\* The verdict table of every state a holder can be in is printed once.
+ASSUME \A d \in HolderStates :
+          PrintT(<<"@@V", ToJson([k |-> "state", doc |-> DocJ(d), eff |-> Eff(d)])>>)
 
-Put == \E doc \in Docs : \E o \in MS!DecodeOutcomes(live, doc) :
-          /\ live' = o.val
-          /\ last' = IF o.ok THEN doc ELSE last
-          /\ out' = IF o.ok THEN "ok" ELSE "rejected"
-          /\ PrintT(<<"@@V", ToJson([k |-> "edge", src |-> DocJ(live), doc |-> DocJ(doc),
-                                     out |-> out', dst |-> DocJ(live'), eff |-> Eff(live')])>>)
+Init == /\ live = [h \in Holders |-> Boot]
+        /\ last = [h \in Holders |-> Boot]
+        /\ op = [h |-> "g", act |-> "boot", out |-> "boot"]
 
-Next == Put
+Emit(h, act, doc, o) ==
+    PrintT(<<"@@V", ToJson([k |-> "edge", h |-> h, act |-> act, src |-> LiveJ(live), doc |-> DocJ(doc),
+                            out |-> o, dst |-> LiveJ(live')])>>)
+
+\* A document offered to holder h, through the update API (act = "put") or as
+\* the configuration it is restarted from, decoded as YAML or JSON on top of
+\* the default (empty) schedule (act = "yaml" / "json").  All or nothing in
+\* either case; the default does not show through, and is not changed.
+Offer(h, act, doc) ==
+    \E o \in MS!DecodeOutcomes(live[h], doc) :
+        /\ live' = [live EXCEPT ![h] = o.val]
+        /\ last' = [last EXCEPT ![h] = IF o.ok THEN doc ELSE last[h]]
+        /\ op' = [h |-> h, act |-> act, out |-> IF o.ok THEN "ok" ELSE "rejected"]
+        /\ Emit(h, act, doc, op'.out)
+
+\* The whole universe of rejected documents, to holder g alone.
+PutFull == live["c"] = Boot /\ \E doc \in Docs : Offer("g", "put", doc)
+
+\* The small universe, to either holder, in every combination of states.
+PutSmall == \E h \in Holders, doc \in SmallDocs : Offer(h, "put", doc)
+Load     == \E h \in Holders, f \in {"yaml", "json"}, doc \in SmallDocs : Offer(h, f, doc)
+
+\* "schedule": null -- the holder has the empty schedule afterwards.
+PutNull == \E h \in Holders :
+              /\ live' = [live EXCEPT ![h] = Empty]
+              /\ last' = [last EXCEPT ![h] = Empty]
+              /\ op' = [h |-> h, act |-> "null", out |-> "ok"]
+              /\ Emit(h, "null", Empty, "ok")
+
+Next == PutFull \/ PutSmall \/ Load \/ PutNull
 Spec == Init /\ [][Next]_vars
 
 \* -------------------------------------------- properties of the statement
-\* After any history the schedule in effect is the last accepted document...
+\* After any history each holder has its last accepted document in effect...
 InEffectIsLastAccepted == live = last
-\* ... in particular right after a rejected update (GET and Contains).
+\* ... in particular right after a rejected request (GET and Contains).
 RejectedChangesNothing ==
-    out = "rejected" => live = last /\ Eff(live) = Eff(last)
+    op.out = "rejected" => live[op.h] = last[op.h] /\ Eff(live[op.h]) = Eff(last[op.h])
 \* What is in effect is always a schedule the statement accepts.
-InEffectWellFormed == \A x \in Weekdays : MS!WellFormed(live.w[x])
+InEffectWellFormed == \A h \in Holders : \A x \in Weekdays : MS!WellFormed(live[h].w[x])
+\* An empty schedule holds at no instant and has no day when written out.
+EmptyCoversNothing ==
+    \A h \in Holders : (\A x \in Weekdays : MS!IsEmptyDay(live[h].w[x])) =>
+        \A i \in DOMAIN Eff(live[h]) : Eff(live[h])[i][2] = 0
+\* Holders are independent: a request to one leaves the other exactly as it
+\* was (action property).
+Independence == [][live'[OtherH(op'.h)] = live[OtherH(op'.h)]]_vars
 \* The universe is as intended: every bad document must be rejected, every
 \* valid one accepted (no undecided verdicts are used here).
 UniverseDecided ==
-    /\ \A d \in ValidDocs : MS!WeekVerdicts(d.w) = {"accept"}
-    /\ \A d \in BadDocs : MS!WeekVerdicts(d.w) = {"reject"}
+    /\ \A d \in ValidDocs \cup SmallValid : MS!WeekVerdicts(d.w) = {"accept"}
+    /\ \A d \in BadDocs \cup SmallBad : MS!WeekVerdicts(d.w) = {"reject"}
+    /\ SmallValid \subseteq ValidDocs
 =============================================================================
